@@ -14,6 +14,10 @@ Proved: `C06_partial` (= the full statement under `NoEviction`), `C06_static` (s
 -/
 import Verif.Lemmas.StateCacheWitness
 import Verif.Lemmas.StateCacheBound
+import Verif.Lemmas.StateCacheDrop
+import Verif.Lemmas.StateCacheDistinct
+import Verif.Lemmas.StateCacheLink
+import Verif.Lemmas.StateCachePublish
 namespace Verif.Props.C06
 open Verif.SC
 
@@ -62,16 +66,148 @@ theorem C06_partial (capK maxDepth : Nat) (ops : List (Op H K B V))
     of the link cache. (Coarser than the harness's matcher, which counts distinct blocks, but sound.) -/
 theorem noEviction_of_counts (capK maxDepth : Nat) (ops : List (Op H K B V))
     (hK : ∀ k, (ops.filter (fun o => o.touches k)).length ≤ capK)
-    (hC : (ops.filter (fun o => o.isCommit)).length ≤ maxDepth) :
+    (hC : (ops.filter (fun o => o.isCommit)).length ≤ maxDepth)
+    (hR : ∀ op ∈ ops, op.isRemove = false) :
     NoEviction (Sys.new capK maxDepth) ops :=
   Sys.run_noEviction capK maxDepth ops _ (fun _ => 0) 0 (Len.init capK maxDepth)
-    (fun k => by simpa using hK k) (by simpa using hC)
+    (fun k => by simpa using hK k) (by simpa using hC) hR
+
+/-- `noEviction_of_distinct`: the tight static condition — exactly the negation of the harness's matcher for the open
+    finding. `Sys.cands s k ops` lists, along the history, the blocks that can receive an entry in the version map of
+    `k` (the block a state-level lookup of `k` is issued at; the hash of a committed block cache that writes `k`),
+    `Sys.commitCands` the committed hashes. If for every key those blocks are among at most `capK` DISTINCT ones (a list
+    `LK k` of length ≤ capK contains them all), the committed hashes among at most `maxDepth`, and no `Remove` occurs,
+    no LRU ever evicts. -/
+theorem noEviction_of_distinct (capK maxDepth : Nat) (ops : List (Op H K B V)) (LK : K → List B) (LC : List B)
+    (hLK : ∀ k, (LK k).length ≤ capK) (hLC : LC.length ≤ maxDepth)
+    (hk : ∀ k b, b ∈ (Sys.new capK maxDepth : Sys H K B V).cands k ops → b ∈ LK k)
+    (hc : ∀ b ∈ (Sys.new capK maxDepth : Sys H K B V).commitCands ops, b ∈ LC)
+    (hR : ∀ op ∈ ops, op.isRemove = false) :
+    NoEviction (Sys.new capK maxDepth) ops :=
+  Sys.run_noEviction_distinct ⟨hLK, hLC⟩ ops _ (Dist.init capK maxDepth LK LC) hk hc hR
+
+/-- `C06_distinct`: the full statement under the negation of the open finding's matcher: at most `capK` distinct candidate
+    blocks per key, at most `maxDepth` distinct committed blocks, no `Remove`. -/
+theorem C06_distinct (capK maxDepth : Nat) (ops : List (Op H K B V)) (LK : K → List B) (LC : List B)
+    (hLK : ∀ k, (LK k).length ≤ capK) (hLC : LC.length ≤ maxDepth)
+    (hk : ∀ k b, b ∈ (Sys.new capK maxDepth : Sys H K B V).cands k ops → b ∈ LK k)
+    (hc : ∀ b ∈ (Sys.new capK maxDepth : Sys H K B V).commitCands ops, b ∈ LC)
+    (hR : ∀ op ∈ ops, op.isRemove = false) : AllOK (Sys.new capK maxDepth) [] ops :=
+  C06_partial capK maxDepth ops (noEviction_of_distinct capK maxDepth ops LK LC hLK hLC hk hc hR)
 
 /-- `C06_static`: the full statement for every history that stays within the static counts — no run-time hypothesis. -/
 theorem C06_static (capK maxDepth : Nat) (ops : List (Op H K B V))
     (hK : ∀ k, (ops.filter (fun o => o.touches k)).length ≤ capK)
-    (hC : (ops.filter (fun o => o.isCommit)).length ≤ maxDepth) : AllOK (Sys.new capK maxDepth) [] ops :=
-  C06_partial capK maxDepth ops (noEviction_of_counts capK maxDepth ops hK hC)
+    (hC : (ops.filter (fun o => o.isCommit)).length ≤ maxDepth)
+    (hR : ∀ op ∈ ops, op.isRemove = false) : AllOK (Sys.new capK maxDepth) [] ops :=
+  C06_partial capK maxDepth ops (noEviction_of_counts capK maxDepth ops hK hC hR)
+
+/-! ### dropping a whole version map: `StateCache.Remove(key)` and evictions from the outer key LRU
+
+`Op.srem k` drops the version map of `k` at an arbitrary point of a history; this is `StateCache.Remove` and
+over-approximates every eviction policy of the outer key cache (capacity `Verif.Gen.StateCacheFacts.capKeys` = 102 400
+in the code). The statement "no LRU evicts, Removes anywhere ⇒ every lookup correct" is FALSE when a child block is
+committed before its parent (`remove_unsafe_out_of_order`) and TRUE when blocks are committed in ancestor order
+(`remove_safe_in_order`): a dropped map only turns hits into misses. -/
+
+/-- full statement for histories with `Remove`: no LRU `Add` evicts (the counter moves only at Removes) ⇒ all lookups ok -/
+def C06_remove_full : Prop :=
+  ∀ (capK maxDepth : Nat) (ops : List (Op Nat Nat Nat Nat)),
+    NoLRUEviction (Sys.new capK maxDepth) ops → AllOK (Sys.new capK maxDepth) [] ops
+
+/-- `remove_safe_in_order`: with `Remove(key)` (or an outer-cache eviction of a key's whole map) at arbitrary points,
+    if no LRU `Add` evicts and no block is committed after one of its descendants (every tree along the run is in
+    ancestor order), every hit at every layer still carries exactly the demanded value and a removed key misses. -/
+theorem remove_safe_in_order (capK maxDepth : Nat) (ops : List (Op H K B V))
+    (hne : NoLRUEviction (Sys.new capK maxDepth) ops)
+    (hio : InOrderRun (Sys.new capK maxDepth) [] ops) : AllOK (Sys.new capK maxDepth) [] ops :=
+  Sys.run_ok_drops _ [] (fun _ => 0) ops (SysInv.init capK maxDepth) (fun _ => Nat.le_refl _) hne hio
+
+/-- non-vacuity of `remove_safe_in_order`: A writes k, B child of A writes k, `Remove(k)`, C child of B (no write), lookups
+    at C and B miss (the map is gone), D child of C writes k and re-creates the map, lookups at D hit, at C still miss -/
+def removeHistory : List (Op Nat Nat Nat Nat) :=
+  [.blk 0 10 0, .bset 0 0 1, .bcommit 0, .blk 1 11 10, .bset 1 0 2, .bcommit 1, .sget 0 11, .srem 0,
+   .blk 2 12 11, .bcommit 2, .sget 0 12, .sget 0 11, .blk 3 13 12, .bset 3 0 4, .bcommit 3, .sget 0 13, .sget 0 12]
+
+example : NoLRUEviction (Sys.new 200 2000 : Sys Nat Nat Nat Nat) removeHistory := by
+  simp only [removeHistory, NoLRUEviction, Op.isRemove]; decide
+
+example : ((Sys.new 200 2000 : Sys Nat Nat Nat Nat).run removeHistory).2 =
+    [.ok, .ok, .ok, .ok, .ok, .ok, .hit 2, .ok, .ok, .ok, .miss, .miss, .ok, .ok, .ok, .hit 4, .miss] := by decide
+
+/-- Q = block 11 (child of 10) writes k := 2 and is committed FIRST; `Remove(k)`; then its parent P = block 10 writes
+    k := 1 and is committed; the lookup at Q finds no entry for Q (dropped), follows Q's link to P and returns P's value -/
+def witnessRemove : List (Op Nat Nat Nat Nat) :=
+  [.blk 1 11 10, .bset 1 0 2, .bcommit 1, .srem 0, .blk 0 10 0, .bset 0 0 1, .bcommit 0]
+
+theorem remove_unsafe_out_of_order : ¬ C06_remove_full := by
+  intro h
+  have hall := h 200 2000 (witnessRemove ++ [.sget 0 11]) (by
+    simp only [witnessRemove, List.cons_append, List.nil_append, NoLRUEviction, Op.isRemove]
+    decide)
+  have hop := AllOK.nth witnessRemove (.sget 0 11) [] hall
+  have hhit : ((((Sys.new 200 2000 : Sys Nat Nat Nat Nat).run witnessRemove).1).step (.sget 0 11)).2 = .hit 1 := by decide
+  have hans := (hop [] 11 0 rfl).1 1 hhit
+  have horacle : Chain ((Sys.new 200 2000 : Sys Nat Nat Nat Nat).treeRun [] witnessRemove) 0 11 (.val 2) :=
+    oracleN_sound (n := 2) (by decide)
+  have : Entry.val (1 : Nat) = Entry.val 2 := Chain.det hans horacle
+  cases this
+
+/-! ### evictions from the link cache (`hashCache`, capacity maxHisDepth = 2000) -/
+
+/-- `link_eviction_safe`: the link cache may evict at will (any capacity, any number of commits): as long as no per-key
+    version map evicts (`entryEv` unchanged), no `Remove` occurs and no block is committed a second time after its link
+    was lost, every hit at every layer carries exactly the demanded value and a removed key misses. A lost link makes
+    walks stop at a gap — it only turns hits into misses. -/
+theorem link_eviction_safe (capK maxDepth : Nat) (ops : List (Op H K B V))
+    (hne : ((Sys.new capK maxDepth : Sys H K B V).run ops).1.sc.entryEv = 0)
+    (hR : ∀ op ∈ ops, op.isRemove = false)
+    (hrc : NoRecommit (Sys.new capK maxDepth) [] ops) : AllOK (Sys.new capK maxDepth) [] ops :=
+  Sys.run_ok_links _ ops (SysInv0.init capK maxDepth) hne hR hrc
+
+/-- non-vacuity: link capacity 2, a chain A ← B ← C ← D with A writing the key; the third and fourth commits evict the
+    links of A and B. The lookup at D walks D, C and stops at the gap (B's link is gone): a miss where an unbounded link
+    cache would hit — never a wrong hit; A itself still answers. The LRU did evict (`evictions` = 2) while no version map
+    did (`entryEv` = 0). -/
+def linkHistory : List (Op Nat Nat Nat Nat) :=
+  [.blk 0 10 0, .bset 0 0 1, .bcommit 0, .blk 1 11 10, .bcommit 1, .blk 2 12 11, .bcommit 2,
+   .blk 3 13 12, .bcommit 3, .sget 0 13, .sget 0 12, .sget 0 10]
+
+example : ((Sys.new 200 2 : Sys Nat Nat Nat Nat).run linkHistory).2 =
+    [.ok, .ok, .ok, .ok, .ok, .ok, .ok, .ok, .ok, .miss, .miss, .hit 1] := by decide
+
+example : ((Sys.new 200 2 : Sys Nat Nat Nat Nat).run linkHistory).1.sc.entryEv = 0 ∧
+    0 < ((Sys.new 200 2 : Sys Nat Nat Nat Nat).run linkHistory).1.sc.evictions ∧
+    NoRecommit (Sys.new 200 2 : Sys Nat Nat Nat Nat) [] linkHistory := by
+  refine ⟨by decide, by decide, by decide⟩
+
+/-! ### the maxHisDepth boundary -/
+
+/-- `found_at_max_depth`: on a cache satisfying the invariant (what `memo_sound` establishes after any history without
+    eviction), a value written exactly `maxDepth` parent steps up the chain — the largest depth the walk visits — is
+    found, as is any value nearer (`n ≤ maxDepth`), provided the lookup itself evicts nothing. -/
+theorem found_at_max_depth {T : Tree K B V} (sc : SC K B V) (hI : Inv sc T none) {k : K} {d b : B} {x : Blk K B V} {v : V}
+    {n : Nat} (hwalk : WalkN T k n d b) (hn : n ≤ sc.maxDepth) (hx : T.find b = some x)
+    (hw : alookup x.writes k = some (.val v)) (hev : (sc.get k d).1.evictions = sc.evictions) :
+    (sc.get k d).2 = some v :=
+  SC.get_complete sc hI hwalk hn hx hw hev
+
+/-- `miss_beyond_max_depth`: if the first `maxDepth + 1` blocks of `d`'s chain (depths 0 … maxDepth) are committed and the
+    cache holds no entry of `k` at any of them, the lookup misses — a value `maxDepth + 1` or more steps up is never
+    reached, and nothing else is returned in its place. -/
+theorem miss_beyond_max_depth {T : Tree K B V} (sc : SC K B V) (hI : Inv sc T none) {k : K} {d : B}
+    (hne : NoEntryN sc T k (sc.maxDepth + 1) d) (hev : (sc.get k d).1.evictions = sc.evictions) :
+    (sc.get k d).2 = none :=
+  SC.get_cutoff sc hI hne hev
+
+/-- the boundary on a concrete chain with maxDepth = 3 (and a large link capacity is not available separately: the link
+    cache has the same capacity, so the chain is kept at 4 links by a lookup-free history): r writes k; c1 ← c2 ← c3 ← c4.
+    At c3 the value is 3 steps up: hit. At c4 it is 4 steps up: miss. A self-parent block s exercises the cut-off proper:
+    its chain never ends, the walk stops after maxDepth + 1 visits. -/
+example : ((Sys.new 200 3 : Sys Nat Nat Nat Nat).run
+    [.blk 0 10 0, .bset 0 0 7, .bcommit 0, .blk 1 11 10, .bcommit 1, .blk 2 12 11, .bcommit 2, .blk 3 13 12, .bcommit 3,
+     .sget 0 13, .blk 9 99 99, .bcommit 9, .sget 0 99]).2
+    = [.ok, .ok, .ok, .ok, .ok, .ok, .ok, .ok, .ok, .hit 7, .ok, .ok, .miss] := by decide
 
 /-- `fork_independent`: the answer for `(k, b)` only reads the blocks on `b`'s own ancestor chain — two trees that agree
     on those blocks give the same answer. -/
@@ -132,6 +268,11 @@ def sampleHistory : List (Op Nat Nat Nat Nat) :=
 
 example : NoEviction (Sys.new 200 2000 : Sys Nat Nat Nat Nat) sampleHistory := by
   unfold NoEviction; decide
+
+/-- the distinct-blocks condition holds for `sampleHistory` with a per-key capacity of only 4 (blocks 10..13) although it
+    has 4 commits and 11 lookups of the key — the operation-count condition of `noEviction_of_counts` would need 15 -/
+example : ∀ b, b ∈ (Sys.new 4 4 : Sys Nat Nat Nat Nat).cands 0 sampleHistory → b ∈ [10, 11, 12, 13] := by
+  decide
 
 example : ((Sys.new 200 2000 : Sys Nat Nat Nat Nat).run sampleHistory).2 =
     [.ok, .ok, .ok, .ok, .ok, .ok, .ok, .ok, .hit 2, .hit 1, .ok, .hit 2, .ok,
